@@ -8,7 +8,7 @@ import warnings
 
 from mc import recs, refcodec
 from mc.bfs import bfs
-from mc.faults import drain
+from mc.faults import drain, drain_resumed
 from mc.obs import obs_list
 from mc.recs import rs
 from mc.report import Run, jhash
@@ -302,6 +302,12 @@ def step_binary(hist, conf):
             except Exception as e:  # noqa: BLE001
                 items, exc = [], e
         real = obs_list(items)
+        if exc is None:
+            with warnings.catch_warnings():
+                warnings.simplefilter("ignore")
+                items2, exc2 = drain_resumed(RecordStreamReader(io.BytesIO(datas[w])))
+            if exc2 is not None or obs_list(items2) != real:
+                viol.append(("C03:binary:reader-resumed-differs:%s" % sig_kinds, case, {"error": repr(exc2)[:200], "read": len(items2), "in_one_go": len(real)}))
         if exc is not None and len(real) < len(expected) - 1:
             out += "/reader-masked"
         elif exc is not None:
@@ -403,6 +409,15 @@ def step_json(hist, conf):
             except Exception as e:  # noqa: BLE001
                 items, exc = [], e
             real = obs_list(items)
+            if exc is None:
+                try:
+                    rd2 = JsonfileReader(p)
+                    items2, exc2 = drain_resumed(rd2)
+                    rd2.close()
+                except Exception as e:  # noqa: BLE001
+                    items2, exc2 = [], e
+                if exc2 is not None or obs_list(items2) != real:
+                    viol.append(("C03:json:reader-resumed-differs:%s" % sig_kinds, case, {"error": repr(exc2)[:200], "read": len(items2), "in_one_go": len(real)}))
             if exc is not None and len(real) < len(expected) - 1:
                 out += "/reader-masked"
             elif exc is not None:
